@@ -7,7 +7,22 @@ props = [json.loads(l) for l in open(os.path.join(V, "properties.jsonl"))]
 NOTE_TRUST = ("Trusted base: TLC 1.8.0, the TLA+ module named in `technique` (contract operators written from the "
               "property text), the Go harness' printing/comparison code, and for file-placement only Go's path.Clean.")
 
+EXEC_TRUST = ("Trusted base: TLC 1.8.0, spec/JetExec.tla + JetProg.tla (the interpreter contract), the Go concretiser "
+              "(abstract program -> Jet source, one statement per line) and its string comparison. Values are opaque atoms; "
+              "Go data kinds beyond the harness catalogue are not explored.")
+
 CHECKS = {
+ "C13": dict(
+   technique="TLA+ JetExec (small-step interpreter machine with explicit Go panic/defer unwinding) model-checked by TLC over "
+             "generated program families (Gen_C13); every terminated behaviour concretised to Jet source and replayed on the real "
+             "interpreter, output and error compared",
+   text="TLC runs the interpreter specification on every program of the family (all wrapper paths up to the bound inside a try "
+        "body, every failure class, every catch form, inside and outside a yielded block) checking at every step that a "
+        "finished construct restores scope/context/content/writer, that a failed try restores them, and that output is "
+        "append-only; the as-implemented unwinding (no restore in try) is refuted at design level. Each program is then executed "
+        "by the real library and must render byte-for-byte what the specification computes, probes before and after the try "
+        "included. Exhaustive over the bounded program family, which is the quantifier of C13.",
+   design_ref="DESIGN.md §5 C13", note=EXEC_TRUST),
  "C19": dict(
    technique="TLA+ JetLoaderMem / JetLoaderFS (loader contracts: normalised-key map; exactly-the-regular-files; first-loader-wins) "
              "enumerated by TLC; every history/stack replayed on the real InMem, OS, http, embed and multi loaders; random InMem "
